@@ -148,6 +148,13 @@ def _h(*xs):
     return v
 
 
+def _tiny_active(c):
+    """The "physical units" scaling is applied only where every term of every sum carries the same power of the scale
+    (one element of each factor): not in the recurrence S = A + c S.S and not when an identity sentinel stands in for an
+    element - there terms of different magnitude are added and the floating-point reference would no longer be exact."""
+    return bool(c.get("tiny")) and c["mode"] in ("real", "complex") and c["structure"] != "recurrence" and not any(c["identity"]) and not c.get("ident_pair")
+
+
 class Factors:
     """Reference values of every factor: value(t, idx) -> None (absent) | 'one' | array / sympy number."""
 
@@ -178,7 +185,7 @@ class Factors:
             return None if val == 0 else val
         if not arr.any():
             return None
-        if c.get("tiny") and c["mode"] in ("real", "complex") and c["structure"] != "recurrence":
+        if _tiny_active(c):
             # physical units: the blocks of every second series are of order 1e-9, the others of order 1e9 (exact
             # powers of two, so the reference stays exact).  A small block is not an absent block.
             arr = arr * (2.0**-30 if tag % 2 == 0 else 2.0**30)
@@ -323,7 +330,7 @@ def check_case(case, enforce_all=False):
     scalar = case["mode"] == "scalar"
     structure = case["structure"]
     out.labels += [f"structure={structure}", f"mode={case['mode']}", f"n_inf={n_inf}", f"factors={k}"]
-    if case.get("tiny") and case["mode"] in ("real", "complex") and structure != "recurrence":
+    if _tiny_active(case):
         # (not for the recurrence: S = A + c S.S adds terms of different powers of the scale, which would make the
         # floating-point reference inexact)
         out.labels.append("tiny-and-huge-blocks")
